@@ -657,6 +657,25 @@ def c08_scope(res, pid, rng, tier):
             pl_ = "Tr%dailing" % rng.randint(0, 99)
             pairs9.append((_enc(pl_, sc_), _enc(pl_ + "\x00", sc_)))
             pairs9.append((_enc(pl_ + "\x00", sc_), _enc(pl_ + "\x00\x00", sc_)))
+        # a sha512-crypt hash met in clear, then `$9$` encodings of that very text (two salt characters): one secret, so the `$9$`
+        # replacements are encodings of the replacement that the clear form received
+        h6_ = L.gen_secret(rng, "sha512")
+        l6_ = ["username noc secret sha512 %s\n" % h6_, 'secret "%s"\n' % _enc(h6_, "Q"), 'secret "%s"\n' % _enc(h6_, "n")]
+        try:
+            o6_, _ = run_lines(cfg, l6_)
+            res.evaluations += 3
+            r6_ = extract(o6_[0], "username noc secret sha512 {}", "{}")
+            d6_ = []
+            for o_ in o6_[1:]:
+                try:
+                    d6_.append(ref_decrypt(extract(o_, 'secret "{}"', "{}")))
+                except Exception:  # noqa
+                    d6_.append(None)
+            if r6_ is None or r6_ == h6_ or d6_ != [r6_, r6_]:
+                fails.append({"kind": "equal secrets received different replacements", "salt": cfg.salt, "lines": l6_, "outputs": o6_,
+                              "replacement_of_the_clear_form": r6_, "clear_text_of_the_$9$_replacements": d6_})
+        except Exception as e:  # noqa
+            fails.append({"kind": "anonymize_io raised", "exc": repr(e), "salt": cfg.salt, "lines": l6_})
         for e1, e2 in pairs9:
             l9 = ['secret "%s"\n' % e1, 'secret "%s"\n' % e2, 'secret "%s"\n' % e1]
             try:
